@@ -386,14 +386,23 @@ def _plain_insts():
                     continue
                 e = cands[0]
             out.append(Inst("plain", e, [e.frame], f"frame={rc(e.frame.columns)} extra=-", list(e.columns), tag=nm))
-        pass  # ExplodeFrame moved to the keyed family (D44: its own rule keeps the input a frame)
+        # classes with a dict parameter keyed by column labels (D112): the input is never collapsed to a series
+        for nm, mk in (("Fillna", lambda d: d.fillna({cols[0]: 0})), ("Replace", lambda d: d.replace({cols[1]: {1: 5}})),
+                       ("Replace", lambda d: d.replace({cols[0]: 1}, 7))):
+            e = mk(df).expr
+            if type(e).__name__ != nm:
+                cands = [x for x in e.walk() if type(x).__name__ == nm]
+                if not cands:
+                    continue
+                e = cands[0]
+            out.append(Inst("plaindict", e, [e.frame], f"frame={rc(e.frame.columns)}", list(e.columns), tag=nm + "[dict]"))
     return out
 
 
 def fam_plain(ctx):
     insts = _plain_insts()
     if ctx.quick:
-        insts = [i for k, i in enumerate(insts) if k % 3 == ctx.seed % 3 or i.tag in ("Fillna", "ExplodeFrame", "CumSum")]
+        insts = [i for k, i in enumerate(insts) if k % 3 == ctx.seed % 3 or i.tag in ("Fillna", "CumSum") or i.tag.endswith("[dict]")]
     return run_rule_family(ctx, "plain_column_projection[Blockwise/Elemwise pass-through, Clip, Unaryop, Cumulative, Explode]",
                            insts, cap_parents=24 if ctx.quick else None)
 
@@ -1274,6 +1283,10 @@ def _programs():
     add("where", lambda t: t["L"].where(t["L"] > 1, -1), "plain_column_projection[pass-through]", "frame-valued condition operand")
     add("round_dict", lambda t: t["L"].round({"c": 0}), "plain_column_projection[pass-through]", "parameter keyed by column")
     add("fillna_dict", lambda t: t["L"].fillna({"c": 0}), "plain_column_projection[pass-through]", "parameter keyed by column")
+    add("fillna_dict_idxkey", lambda t: t["L"].fillna({"c": 0, 2: 5}), "plain_column_projection[pass-through]", "parameter keyed by column")
+    add("isin_dict", lambda t: t["L"].isin({"b": [1, 3], "a": [2]}), "plain_column_projection[pass-through]", "parameter keyed by column")
+    add("replace_nested", lambda t: t["L"].replace({"b": {1: 100}}), "plain_column_projection[pass-through]", "parameter keyed by column")
+    add("replace_dict_value", lambda t: t["L"].replace({"b": 1}, 100), "plain_column_projection[pass-through]", "parameter keyed by column")
     add("neg", lambda t: -t["L"], "plain_column_projection[pass-through]")
     add("cumsum", lambda t: t["L"][["a", "b", "k"]].cumsum(), "CumulativeAggregations._simplify_up")
     add("diff", lambda t: t["L"][["a", "b", "k"]].diff(1), "plain_column_projection[pass-through]")
@@ -1589,6 +1602,12 @@ CORPUS = [
     {"prog": "src_filter", "term": "sel", "sel": ["c"], "source": "read_parquet"},
     {"prog": "src", "term": "sel", "sel": ["e", "b"], "source": "from_map"},
     # a projectable from_map source asked for no column at all (D84)
+    {"prog": "fillna_dict", "term": "sel", "sel": "c"},  # D112: dict parameters under a scalar selection
+    {"prog": "fillna_dict_idxkey", "term": "sel", "sel": "a"},
+    {"prog": "isin_dict", "term": "sel", "sel": "b"},
+    {"prog": "replace_nested", "term": "sel", "sel": "b"},
+    {"prog": "replace_dict_value", "term": "sel", "sel": "b"},
+    {"prog": "round_dict", "term": "sel", "sel": "c"},
     {"prog": "gb_slice2_sum", "term": "sel", "sel": ["a"]},  # D96
     {"prog": "gb_slice2_count", "term": "sel", "sel": "a"},
     {"prog": "src", "term": "sel", "sel": [], "source": "from_map"},
